@@ -118,6 +118,23 @@ async fn server_state(live: &Live, id: &AccountId) -> String {
     }
 }
 
+/// the device keys the server checks against (its cache) and the length of its device log
+async fn server_devices(live: &Live, id: &AccountId, names: &[(DevicePublicKey, u32)]) -> String {
+    let r = live.backend.read().await;
+    let accounts = r.accounts();
+    let accounts = accounts.read().await;
+    match accounts.get(id) {
+        None => "no-account".into(),
+        Some(a) => {
+            let a = a.read().await;
+            let mut ks: Vec<u32> = a.list_device_keys().iter().map(|k| names.iter().find(|n| &n.0 == *k).map(|n| n.1).unwrap_or(9)).collect();
+            ks.sort();
+            let n = match a.device_log().await { Ok(l) => l.read().await.tree().len(), Err(_) => 0 };
+            format!("trusted={} log={}", ks.iter().map(|k| k.to_string()).collect::<Vec<_>>().join(","), n)
+        }
+    }
+}
+
 #[derive(Clone, Copy, PartialEq, Eq, Debug)]
 enum CredKind { None, Malformed, Dotted, UnknownKey, RevokedKey, OtherBytes, OtherAccountKey, NoAccountHeader, Valid }
 
@@ -155,12 +172,21 @@ pub async fn run_config(cfg_name: &str, rep: &mut Report, ops: &mut Vec<String>,
     let dev_c: BoxedEd25519Signer = Box::new(dev_c);
     let unknown: BoxedEd25519Signer = Box::new(SingleParty::new_random());
     let mut revoked = false;
+    // device-log history as the server received it (model: Auth.DevStore)
+    let own_key: Option<DevicePublicKey> = { let r = live.backend.read().await; let accs = r.accounts(); let accs = accs.read().await;
+        match accs.get(&a1.id) { Some(a) => a.read().await.list_device_keys().iter().next().map(|k| (*k).clone()), None => None } };
+    let mut names: Vec<(DevicePublicKey, u32)> = vec![(dev_b_pub.clone(), 2), (dev_c_pub.clone(), 3)];
+    if let Some(k) = own_key { names.push((k, 1)); }
+    let mut dev_ops: Vec<String> = vec![];
+    if !excluded { ops.push("auth devices create=t1 ops=-".into()); imp.push(server_devices(&live, &a1.id, &names).await); }
     if !excluded {
         let a = a1.account.lock().await;
         let log = a.device_log().await?;
         log.write().await.apply(&[DeviceEvent::Trust(TrustedDevice::new(dev_b_pub.clone(), None, None)), DeviceEvent::Trust(TrustedDevice::new(dev_c_pub.clone(), None, None))]).await?;
         drop(a);
         sync_http(&a1, &live.addr).await.map_err(|e| anyhow::anyhow!("sync trust: {e}"))?;
+        dev_ops.push("p:t2.t3".into());
+        ops.push(format!("auth devices create=t1 ops={}", dev_ops.join(";"))); imp.push(server_devices(&live, &a1.id, &names).await);
     }
     let http = reqwest::Client::builder().build()?;
     let base = format!("http://{}:{}/api/v1", live.addr.ip(), live.addr.port());
@@ -195,6 +221,8 @@ pub async fn run_config(cfg_name: &str, rep: &mut Report, ops: &mut Vec<String>,
             drop(a);
             sync_http(&a1, &live.addr).await.map_err(|e| anyhow::anyhow!("sync revoke: {e}"))?;
             revoked = true;
+            dev_ops.push("p:r2".into());
+            ops.push(format!("auth devices create=t1 ops={}", dev_ops.join(";"))); imp.push(server_devices(&live, &a1.id, &names).await);
         }
         for (method, handler, path, body, destructive) in &bodies {
             let signed_path = format!("/api/v1{}", path.split('?').next().unwrap());
@@ -295,6 +323,10 @@ pub async fn run_config(cfg_name: &str, rep: &mut Report, ops: &mut Vec<String>,
         let code = http.post(format!("{base}/sync/account?connection_id=verif")).header("X-SOS-ACCOUNT-ID", a1.id.to_string())
             .header("Authorization", format!("Bearer {tok}")).header("content-type", "application/x-protobuf").body(body.clone()).send().await.map(|r| r.status().as_u16()).unwrap_or(0);
         rep.count(&format!("forced-revocation:update_account:{code}"));
+        if code == 200 {
+            dev_ops.push("f:t1.t2.t3.r2.r3".into());
+            ops.push(format!("auth devices create=t1 ops={}", dev_ops.join(";"))); imp.push(server_devices(&live, &a1.id, &names).await);
+        }
         if code == 200 && c_ok_before == 200 {
             for (method, handler, path, body, destructive) in &bodies {
                 if *destructive { continue; }
